@@ -205,7 +205,7 @@ func run(ci any, r *mon.Rec) {
 // judgeAfterGood: the same client first receives the intact reply (must succeed), then the corrupted one.
 func judgeAfterGood(c *Case, r *mon.Rec, req packet.Request, good, bad []byte, what string, pos int) {
 	rt := 60 * time.Millisecond
-	sess := clientx.NewSession(c.Client, clientx.Options{ReadTimeout: rt, Ctor: int(uint64(c.Seed) % 4)})
+	sess := clientx.NewSession(c.Client, clientx.Options{ReadTimeout: rt, Ctor: int(uint64(c.Seed) % 4), Flusher: uint64(c.Seed)%8 >= 4})
 	o1 := sess.Do(req, xport.Script{Reply: good, Steps: xport.Cuts(len(good), nil, 0), Tail: "eof"})
 	if o1.Err != nil || o1.Hung || o1.Panic != "" {
 		return // intact reply not accepted (expected-length known findings): nothing to compare against
@@ -225,6 +225,10 @@ func judgeAfterGood(c *Case, r *mon.Rec, req packet.Request, good, bad []byte, w
 	}
 	if out.Err == nil {
 		a["what"] = what
+		if libx.IsNilValue(out.Resp) {
+			r.Violate(c, "bad-crc-without-error", a, fmt.Sprintf("%s: returned no error at all (and a nil response)", ctx))
+			return
+		}
 		r.Violate(c, "bad-crc-as-data", a, fmt.Sprintf("%s: returned %T % x as a successful response", ctx, out.Resp, head(out.Resp.Bytes())))
 		return
 	}
@@ -246,7 +250,7 @@ func judge(c *Case, r *mon.Rec, req packet.Request, bad []byte, cuts []int, what
 	if c.Client == clientx.RTUNet && (len(cuts) == 0 || pos%4 != 0) {
 		s.Tail = "eof" // stream closes after the corrupted bytes: the network client returns at once instead of waiting for its timeout
 	}
-	out := clientx.Run(c.Client, req, s, clientx.Options{ReadTimeout: rt, Ctor: int(uint64(c.Seed) % 4)}) // constructor variants: config that spells out the RTU parse / exception functions
+	out := clientx.Run(c.Client, req, s, clientx.Options{ReadTimeout: rt, Ctor: int(uint64(c.Seed) % 4), Flusher: uint64(c.Seed)%8 >= 4}) // constructor variants: config that spells out the RTU parse / exception functions
 	r.Eval(1)
 	r.Cover("calls", clientx.KindName(c.Client)+"/"+c.Kind)
 	a := mon.Attrs{"client": clientx.KindName(c.Client)}
@@ -276,6 +280,10 @@ func judge(c *Case, r *mon.Rec, req packet.Request, bad []byte, cuts []int, what
 	}
 	if out.Err == nil {
 		a["what"] = what
+		if libx.IsNilValue(out.Resp) {
+			r.Violate(c, "bad-crc-without-error", a, fmt.Sprintf("%s: returned no error at all (and a nil response)", ctx))
+			return
+		}
 		r.Violate(c, "bad-crc-as-data", a, fmt.Sprintf("%s: returned %T % x as a successful response", ctx, out.Resp, head(out.Resp.Bytes())))
 		return
 	}
